@@ -1239,4 +1239,230 @@ theorem jIter_run (cfg : JCfg) (s : JState) (b : Nat) (bs : Bytes)
 theorem jFeedBulk_eq_runBytes (cfg : JCfg) (s : JState) (chunk : Bytes) :
     jFeedBulk cfg s chunk = runBytes (jStep cfg) s chunk :=
   bulkLoop_eq_runBytes (jIter cfg) (jStep cfg) (jIter_halt cfg) (jIter_run cfg) s chunk
+
+/-! ## Avro streaming decoder: decode / flush state machine -/
+
+/-- rows with the schema they were decoded under, in delivery order -/
+def avTagged {R : Type} (out : List (Nat × List R)) : List (Nat × R) :=
+  out.flatMap (fun b => b.2.map (fun r => (b.1, r)))
+
+/-- rows still buffered, tagged with the active schema -/
+def avBuffered {R : Type} (s : AvState R) : List (Nat × R) := s.rows.map (fun r => (s.active.getD 0, r))
+
+/-- a decoder between frames: nothing pending, no error, room in the batch, buffered rows valid -/
+structure AvClean {R : Type} (cfg : AvCfg R) (s : AvState R) : Prop where
+  noErr : s.err = false
+  notAwaiting : s.awaiting = false
+  noPending : s.pending = none
+  capPos : 0 < s.cap
+  capLe : s.cap ≤ cfg.batchSize
+  rowsValid : s.rows.all cfg.valid = true
+  emptyIff : s.cap = cfg.batchSize → s.rows = []
+
+/-- a well-formed frame for schema `fp`: prefix `p`, then a complete row body -/
+structure AvFrame {R : Type} (cfg : AvCfg R) (p body : Bytes) (fp : Nat) (r : R) : Prop where
+  pfx : ∀ rest, cfg.pfx (p ++ body ++ rest) = .found fp p.length
+  row : cfg.row fp body = .ok body.length r
+  known : cfg.known fp = true
+  valid : cfg.valid r = true
+  pne : p ≠ []
+  bne : body ≠ []
+
+theorem avDecode_nil {R : Type} (cfg : AvCfg R) (fuel : Nat) (s : AvState R) : avDecode cfg fuel s [] = (s, 0) := by
+  cases fuel <;> simp [avDecode]
+
+theorem avDecode_row {R : Type} (cfg : AvCfg R) (fuel : Nat) (s : AvState R) (body : Bytes) (fp : Nat) (r : R)
+    (hb : body ≠ []) (hc : s.cap ≠ 0) (he : s.err = false) (ha : s.awaiting = true) (hact : s.active = some fp)
+    (hrow : cfg.row fp body = .ok body.length r) :
+    avDecode cfg (fuel + 2) s body =
+      ({ s with cap := s.cap - 1, awaiting := false, rows := s.rows ++ [r] }, body.length) := by
+  have hbe : body.isEmpty = false := by cases body <;> simp_all
+  simp [avDecode, hbe, hc, he, ha, hact, hrow, avDecode_nil]
+
+theorem drop_pfx (p body : Bytes) : (p ++ body).drop p.length = body := by simp
+
+/-- a frame whose schema is already active, or arrives while the batch is empty: decoded whole -/
+theorem avDecode_frame_same {R : Type} (cfg : AvCfg R) (fuel : Nat) (s : AvState R) (p body : Bytes) (fp : Nat) (r : R)
+    (hc : AvClean cfg s) (hf : AvFrame cfg p body fp r) (hcase : s.active = some fp ∨ s.cap = cfg.batchSize) :
+    avDecode cfg (fuel + 3) s (p ++ body) =
+      ({ s with active := some fp, cap := s.cap - 1, awaiting := false, rows := s.rows ++ [r] }, p.length + body.length) := by
+  have hpb : (p ++ body).isEmpty = false := by have := hf.pne; cases p <;> simp_all
+  have hcap : s.cap ≠ 0 := by have := hc.capPos; omega
+  have hpfx := hf.pfx []
+  simp only [List.append_nil] at hpfx
+  rw [avDecode]
+  simp only [hpb, hcap, hc.noErr, hc.notAwaiting, Bool.false_eq_true, or_self, ↓reduceIte, hpfx, drop_pfx]
+  rcases hcase with hact | hfull
+  · simp only [avFingerprint, hact, ↓reduceIte]
+    have hnp : (if s.cap = cfg.batchSize then avApplyPending s else s) = s := by
+      split
+      · simp [avApplyPending, hc.noPending]
+      · rfl
+    rw [hnp, avDecode_row cfg fuel { s with awaiting := true } body fp r hf.bne hcap hc.noErr rfl hact hf.row]
+    all_goals simp [hact, hc.noErr]
+  · by_cases hact : s.active = some fp
+    · simp only [avFingerprint, hact, ↓reduceIte]
+      have hnp : (if s.cap = cfg.batchSize then avApplyPending s else s) = s := by
+        simp [avApplyPending, hc.noPending]
+      rw [hnp, avDecode_row cfg fuel { s with awaiting := true } body fp r hf.bne hcap hc.noErr rfl hact hf.row]
+      all_goals simp [hact, hc.noErr]
+    · simp only [avFingerprint, hact, ↓reduceIte, hf.known, hfull, Nat.lt_irrefl]
+      simp only [avApplyPending]
+      have hbs : cfg.batchSize ≠ 0 := by omega
+      rw [avDecode_row cfg fuel _ body fp r hf.bne (by simpa using hbs) (by simpa using hc.noErr) rfl rfl hf.row]
+      simp [hfull, hc.noErr, hc.noPending]
+
+/-- a frame of another schema while rows are buffered: only the prefix is consumed, the schema
+becomes pending, the capacity drops to 0 (the caller must flush) and the body is awaited -/
+theorem avDecode_frame_switch {R : Type} (cfg : AvCfg R) (fuel : Nat) (s : AvState R) (p body : Bytes) (fp : Nat) (r : R)
+    (hc : AvClean cfg s) (hf : AvFrame cfg p body fp r) (hact : s.active ≠ some fp) (hlt : s.cap < cfg.batchSize) :
+    avDecode cfg (fuel + 2) s (p ++ body) =
+      ({ s with pending := some fp, cap := 0, awaiting := true }, p.length) := by
+  have hpb : (p ++ body).isEmpty = false := by have := hf.pne; cases p <;> simp_all
+  have hcap : s.cap ≠ 0 := by have := hc.capPos; omega
+  have hpfx := hf.pfx []
+  simp only [List.append_nil] at hpfx
+  have hne : s.cap ≠ cfg.batchSize := by omega
+  rw [avDecode]
+  simp only [hpb, hcap, hc.noErr, hc.notAwaiting, Bool.false_eq_true, or_self, ↓reduceIte, hpfx, drop_pfx,
+    avFingerprint, hact, hf.known, hlt]
+  have : (0 : Nat) ≠ cfg.batchSize := by omega
+  simp [this, avDecode]
+
+/-- what the caller's loop does after the last decode of a frame: the row `r` has just been
+appended to a state that is otherwise between frames -/
+theorem av_after_row {R : Type} (cfg : AvCfg R) (extra : Bool) (s1 : AvState R)
+    (he : s1.err = false) (haw : s1.awaiting = false) (hp : s1.pending = none)
+    (hlt : s1.cap < cfg.batchSize) (hv : s1.rows.all cfg.valid = true) :
+    ∃ s' out,
+      (if s1.cap = 0 then (avFlush cfg s1) else if extra then (avFlush cfg s1) else (s1, [])) = (s', out) ∧
+      AvClean cfg s' ∧ avTagged out ++ avBuffered s' = avBuffered s1 := by
+  have hne : s1.cap ≠ cfg.batchSize := by omega
+  have hbs : 0 < cfg.batchSize := by omega
+  have hflush : avFlush cfg s1 = ({ s1 with cap := cfg.batchSize, rows := [] }, [(s1.active.getD 0, s1.rows)]) := by
+    simp [avFlush, hne, hv, avApplyPending, hp]
+  by_cases h0 : s1.cap = 0
+  · refine ⟨{ s1 with cap := cfg.batchSize, rows := [] }, [(s1.active.getD 0, s1.rows)], by simp only [h0, ↓reduceIte]; exact hflush, ⟨he, haw, hp, hbs, Nat.le_refl _, by simp, fun _ => rfl⟩, ?_⟩
+    simp [avTagged, avBuffered]
+  · by_cases hx : extra = true
+    · refine ⟨{ s1 with cap := cfg.batchSize, rows := [] }, [(s1.active.getD 0, s1.rows)], by simp only [h0, hx, ↓reduceIte]; exact hflush, ⟨he, haw, hp, hbs, Nat.le_refl _, by simp, fun _ => rfl⟩, ?_⟩
+      simp [avTagged, avBuffered]
+    · refine ⟨s1, [], by simp [h0, hx], ⟨he, haw, hp, by omega, by omega, hv, fun h => absurd h hne⟩, ?_⟩
+      simp [avTagged]
+
+theorem fuel3 (l : Nat) : 2 * l + 4 = (2 * l + 1) + 3 := by omega
+theorem fuel2 (l : Nat) : 2 * l + 4 = (2 * l + 2) + 2 := by omega
+
+/-- **One well-formed frame, any flush flag.** From a decoder between frames, pushing exactly one
+frame consumes it entirely, leaves the decoder between frames, and delivers-or-buffers exactly the
+old buffered rows followed by the new row under the frame's schema — whether or not the frame
+switches the schema while rows are buffered (the forced flush) and whether or not the caller
+flushes afterwards. -/
+theorem avPush_frame {R : Type} (cfg : AvCfg R) (extra : Bool) (fuel : Nat) (s : AvState R) (p body : Bytes)
+    (fp : Nat) (r : R) (acc : List (Nat × List R)) (hc : AvClean cfg s) (hf : AvFrame cfg p body fp r) :
+    ∃ s' out, avPush cfg extra (fuel + 2) (s, p ++ body) acc = ((s', []), acc ++ out) ∧
+      AvClean cfg s' ∧ avTagged out ++ avBuffered s' = avBuffered s ++ [(fp, r)] := by
+  by_cases hcase : s.active = some fp ∨ s.cap = cfg.batchSize
+  · -- decoded in one go
+    have hd := avDecode_frame_same cfg (2 * (p ++ body).length + 1) s p body fp r hc hf hcase
+    rw [← fuel3] at hd
+    obtain ⟨s', out, hif, hcl, htag⟩ := av_after_row cfg extra
+      { s with active := some fp, cap := s.cap - 1, awaiting := false, rows := s.rows ++ [r] }
+      hc.noErr rfl hc.noPending (by have := hc.capPos; have := hc.capLe; simp; omega)
+      (by simp [List.all_append, hc.rowsValid, hf.valid])
+    refine ⟨s', out, ?_, hcl, ?_⟩
+    · rw [avPush]
+      simp only [hd]
+      have hdrop : (p ++ body).drop (p.length + body.length) = [] := by simp
+      rw [hdrop]
+      simp only [hc.noErr, Bool.false_eq_true, ↓reduceIte, List.isEmpty_nil, Bool.true_or] at hif ⊢
+      by_cases h0 : s.cap - 1 = 0
+      · simp only [h0, ↓reduceIte] at hif ⊢
+        rw [hif]
+      · simp only [h0, ↓reduceIte] at hif ⊢
+        by_cases hx : extra = true
+        · simp only [hx, ↓reduceIte] at hif ⊢
+          rw [hif]
+        · simp only [hx, Bool.false_eq_true, ↓reduceIte] at hif ⊢
+          simp only [Prod.mk.injEq] at hif
+          rw [← hif.1, ← hif.2]; simp
+    · rw [htag]
+      rcases hcase with hact | hfull
+      · simp [avBuffered, hact]
+      · simp [avBuffered, hc.emptyIff hfull]
+  · -- schema switch with rows buffered: forced flush, then the body
+    have hact : s.active ≠ some fp := fun h => hcase (Or.inl h)
+    have hlt : s.cap < cfg.batchSize := by
+      have := hc.capLe; have : s.cap ≠ cfg.batchSize := fun h => hcase (Or.inr h); omega
+    have hbs : 0 < cfg.batchSize := by omega
+    have hd := avDecode_frame_switch cfg (2 * (p ++ body).length + 2) s p body fp r hc hf hact hlt
+    rw [← fuel2] at hd
+    -- the state after the forced flush: new schema active, empty batch, body awaited
+    let s2 : AvState R := { s with active := some fp, pending := none, cap := cfg.batchSize, rows := [], awaiting := true }
+    have hfl : avFlush cfg { s with pending := some fp, cap := 0, awaiting := true } = (s2, [(s.active.getD 0, s.rows)]) := by
+      have : (0 : Nat) ≠ cfg.batchSize := by omega
+      simp [avFlush, this, hc.rowsValid, avApplyPending, s2]
+    have hd2 := avDecode_row cfg (2 * body.length + 2) s2 body fp r hf.bne (by simp [s2]; omega) hc.noErr rfl rfl hf.row
+    rw [← fuel2] at hd2
+    obtain ⟨s', out, hif, hcl, htag⟩ := av_after_row cfg extra
+      { s2 with cap := s2.cap - 1, awaiting := false, rows := s2.rows ++ [r] }
+      hc.noErr rfl rfl (by simp [s2]; omega) (by simp [s2, hf.valid])
+    refine ⟨s', (s.active.getD 0, s.rows) :: out, ?_, hcl, ?_⟩
+    · have hbe : body.isEmpty = false := by have := hf.bne; cases body <;> simp_all
+      rw [avPush]
+      simp only [hd, hc.noErr, Bool.false_eq_true, ↓reduceIte, drop_pfx, hfl, hbe, Bool.or_self]
+      have hfl' := hfl
+      simp only [hc.noErr] at hfl'
+      have he2 : s2.err = false := hc.noErr
+      simp only [hfl', he2, Bool.or_self, Bool.false_eq_true, ↓reduceIte]
+      rw [avPush]
+      simp only [hd2, List.drop_length, he2, Bool.false_eq_true, ↓reduceIte, List.isEmpty_nil, Bool.true_or] at hif ⊢
+      by_cases h0 : s2.cap - 1 = 0
+      · simp only [h0, ↓reduceIte] at hif ⊢
+        rw [hif]; simp
+      · simp only [h0, ↓reduceIte] at hif ⊢
+        by_cases hx : extra = true
+        · simp only [hx, ↓reduceIte] at hif ⊢
+          rw [hif]; simp
+        · simp only [hx, Bool.false_eq_true, ↓reduceIte] at hif ⊢
+          simp only [Prod.mk.injEq] at hif
+          rw [← hif.1, ← hif.2]
+    · have : avTagged ((s.active.getD 0, s.rows) :: out) = avBuffered s ++ avTagged out := by
+        simp [avTagged, avBuffered]
+      rw [this, List.append_assoc, htag]
+      simp [avBuffered, s2]
+
+/-- the caller's schedule over frame-aligned chunks: chunk `i` is pushed (appended to the rolling
+buffer) with its own "flush afterwards" flag -/
+def avSchedule {R : Type} (cfg : AvCfg R) (fuel : Nat) :
+    (AvState R × Bytes) × List (Nat × List R) → List (Bytes × Bool) → (AvState R × Bytes) × List (Nat × List R)
+  | st, [] => st
+  | st, (c, fl) :: rest => avSchedule cfg fuel (avPush cfg fl (fuel + 2) (st.1.1, st.1.2 ++ c) st.2) rest
+
+theorem avFlush_clean {R : Type} (cfg : AvCfg R) (s : AvState R) (hc : AvClean cfg s) :
+    avTagged (avFlush cfg s).2 = avBuffered s ∧ (avFlush cfg s).1.err = false := by
+  by_cases h : s.cap = cfg.batchSize
+  · simp [avFlush, h, avTagged, avBuffered, hc.emptyIff h, avApplyPending, hc.noPending, hc.noErr]
+  · simp [avFlush, h, hc.rowsValid, avTagged, avBuffered, avApplyPending, hc.noPending, hc.noErr]
+
+theorem avSchedule_frames {R : Type} (cfg : AvCfg R) (fuel : Nat)
+    (frames : List (Bytes × Bytes × Nat × R)) (flags : List Bool) (hlen : flags.length = frames.length)
+    (hf : ∀ f ∈ frames, AvFrame cfg f.1 f.2.1 f.2.2.1 f.2.2.2)
+    (s : AvState R) (acc : List (Nat × List R)) (hc : AvClean cfg s) :
+    ∃ s' out, avSchedule cfg fuel ((s, []), acc) ((frames.map (fun f => f.1 ++ f.2.1)).zip flags) = ((s', []), acc ++ out) ∧
+      AvClean cfg s' ∧
+      avTagged out ++ avBuffered s' = avBuffered s ++ frames.map (fun f => (f.2.2.1, f.2.2.2)) := by
+  induction frames generalizing flags s acc with
+  | nil => exact ⟨s, [], by simp [avSchedule], hc, by simp [avTagged]⟩
+  | cons f fs ih =>
+    cases flags with
+    | nil => simp at hlen
+    | cons fl fls =>
+      obtain ⟨s1, out1, h1, hc1, ht1⟩ := avPush_frame cfg fl fuel s f.1 f.2.1 f.2.2.1 f.2.2.2 acc hc (hf f (by simp))
+      obtain ⟨s2, out2, h2, hc2, ht2⟩ := ih fls (by simpa using hlen) (fun g hg => hf g (by simp [hg])) s1 (acc ++ out1) hc1
+      refine ⟨s2, out1 ++ out2, ?_, hc2, ?_⟩
+      · simp only [List.map_cons, List.zip_cons_cons, avSchedule, List.nil_append, h1, h2, List.append_assoc]
+      · have : avTagged (out1 ++ out2) = avTagged out1 ++ avTagged out2 := by simp [avTagged]
+        rw [this, List.append_assoc, ht2, ← List.append_assoc, ht1]
+        simp
 end ArrowModel.C14
